@@ -504,6 +504,23 @@ pub fn make_case(rng: &mut Rng, proj: &Project, k: usize) -> Option<Case> {
             }
         }
     }
+    // an unparsable operation file whose lines are all indented, one of them with multi-byte white space (an illegal
+    // character outside strings: one more syntax fault in the same file): the human-format code frame strips the common
+    // indentation of the lines around the reported position
+    if rng.chance(1, 3) {
+        if let Some(f) = faults.iter().find(|f| f.stage == Stage::OpParse).cloned() {
+            if let Some(t) = files.iter_mut().find(|(p, _)| *p == f.file) {
+                let pad = " ".repeat(*rng.pick(&[2usize, 4]));
+                let wide = *rng.pick(&["\u{3000}", "\u{3000}\u{3000}", "\u{a0}"]);
+                let mut lines: Vec<String> = t.1.lines().map(|l| if l.is_empty() { String::new() } else { format!("{pad}{l}") }).collect();
+                let cands: Vec<usize> = (0..lines.len()).filter(|i| !lines[*i].trim().is_empty() && !lines[*i].trim_start().starts_with('#')).collect();
+                if let Some(&k) = rng.pick_opt(&cands) {
+                    lines[k] = format!("{wide}{}", lines[k].trim_start());
+                    t.1 = lines.join("\n") + "\n";
+                }
+            }
+        }
+    }
     // copy-paste twin: the same faulty text under a second name in the same directory gives identical diagnostics
     // (same message, line and column) in two different files; both are offenders and both must be named
     let mut op_paths = proj.op_paths.clone();
